@@ -43,26 +43,35 @@ func creds(name string) s3c.Creds {
 		return gw.DefaultRoot
 	}
 	if c, ok := cat.Users[name]; ok {
+		if s, ok := rotated[name]; ok {
+			c.Secret = s
+		}
 		return c
 	}
 	return cat.Ghost
 }
+
+// rotated: accounts whose secret the admin has replaced in the world of the current case (name -> current secret)
+var rotated = map[string]string{}
 
 func secretOf(access string) (string, bool) {
 	if access == gw.DefaultRoot.Access {
 		return gw.DefaultRoot.Secret, true
 	}
 	if c, ok := cat.Users[access]; ok {
+		if s, ok := rotated[access]; ok {
+			return s, true
+		}
 		return c.Secret, true
 	}
 	return "", false
 }
 
-var defects = []string{"no-auth", "empty-auth", "malformed", "unknown-key", "wrong-secret", "sig-digit", "sig-form", "sig-zero",
+var defects = []string{"no-auth", "empty-auth", "malformed", "unknown-key", "wrong-secret", "old-secret", "sig-digit", "sig-form", "sig-zero",
 	"alter-header", "dup-header", "alter-query", "alter-path", "alter-payload", "payload-hash", "date-skew", "scope-date", "scope-region",
 	"scope-service", "scope-term"}
 var presignDefects = []string{"expired", "date-future", "value-delims", "expires-altered", "sig-digit", "sig-form", "sig-zero", "alter-query", "alter-path", "param-missing",
-	"unknown-key", "wrong-secret", "scope-region"}
+	"unknown-key", "wrong-secret", "old-secret", "scope-region"}
 
 // buildValid returns the signed, undamaged request.
 func buildValid(fx *cat.Fixture, c caseA, now time.Time) (*s3c.Req, *cat.Entry, error) {
@@ -178,6 +187,16 @@ func reformSig(sig string, arg int) string {
 	}
 }
 
+// formerCreds: the account with the secret it was created with (root has no former secret: a wrong one)
+func formerCreds(name string) s3c.Creds {
+	if u, ok := cat.Users[name]; ok {
+		return u
+	}
+	cr := creds(name)
+	cr.Secret += "x"
+	return cr
+}
+
 // damage applies the defect to a valid signed request.
 func damage(r *s3c.Req, c caseA, now time.Time) {
 	cr := creds(c.Caller)
@@ -202,7 +221,10 @@ func damage(r *s3c.Req, c caseA, now time.Time) {
 		}
 		switch c.Defect {
 		case "expired":
-			represign(cr, now.Add(-2*time.Hour), 60+c.Arg%600, gw.Region)
+			// the window ended seconds, minutes or hours ago: nothing extends it past X-Amz-Date + X-Amz-Expires
+			exp := 60 + c.Arg%600
+			ago := []int{3, 10, 60, 300, 850, 7200, 86400}[(c.Arg/600)%7]
+			represign(cr, now.Add(-time.Duration(exp+ago)*time.Second), exp, gw.Region)
 		case "date-future":
 			// dated ahead of the clock by more than the tolerated skew: the validity window has not begun
 			represign(cr, now.Add(time.Duration(1+c.Arg%9000)*time.Hour), 300, gw.Region)
@@ -248,6 +270,9 @@ func damage(r *s3c.Req, c caseA, now time.Time) {
 			represign(cat.Ghost, now, 300, gw.Region)
 		case "wrong-secret":
 			represign(s3c.Creds{Access: cr.Access, Secret: cr.Secret + "x"}, now, 300, gw.Region)
+		case "old-secret":
+			// the secret the account had until the admin replaced it (execA has done that)
+			represign(formerCreds(c.Caller), now, 300, gw.Region)
 		case "scope-region":
 			represign(cr, now, 300, "eu-west-9")
 		}
@@ -277,6 +302,8 @@ func damage(r *s3c.Req, c caseA, now time.Time) {
 		resign(r, cat.Ghost, now, gw.Region, "s3")
 	case "wrong-secret":
 		resign(r, s3c.Creds{Access: cr.Access, Secret: cr.Secret + "x"}, now, gw.Region, "s3")
+	case "old-secret":
+		resign(r, formerCreds(c.Caller), now, gw.Region, "s3")
 	case "sig-digit":
 		r.Set("Authorization", replaceSig(auth, flipHex(sigOf(auth), c.Arg)))
 	case "sig-form":
@@ -569,6 +596,25 @@ func execA(c caseA) (v verdict, err error) {
 	}
 	if !c.Proc {
 		defer w.close()
+	}
+	if _, isUser := cat.Users[c.Caller]; c.Defect == "old-secret" && isUser {
+		if c.Proc {
+			// (the long-lived gateway keeps its accounts as the fixture made them)
+			v.Discarded = "old-secret on the long-lived gateway"
+			return v, nil
+		}
+		// the account is used (the gateway has seen it), then the admin replaces its secret
+		old := s3c.NewClient(w.t, cat.Users[c.Caller])
+		if r, err := old.Call("GET", "/", nil, nil, nil); err != nil || !r.OK() {
+			return v, fmt.Errorf("SETUP: ListBuckets by %s: %v %v", c.Caller, r, err)
+		}
+		fresh := cat.Users[c.Caller].Secret + "-replaced"
+		body := "<MutableProps><Secret>" + fresh + "</Secret></MutableProps>"
+		if r, err := w.fx.Root.Call("PATCH", "/update-user", s3c.Q("access", c.Caller), nil, []byte(body)); err != nil || !r.OK() {
+			return v, fmt.Errorf("SETUP: update-user %s: %v %v", c.Caller, r, err)
+		}
+		rotated[c.Caller] = fresh
+		defer delete(rotated, c.Caller)
 	}
 	now := time.Now().UTC()
 	valid, entry, err := buildValid(w.fx, c, now)
